@@ -326,7 +326,7 @@ func (a *An) c15FragmentPrefix() {
 				}
 			}
 			ign, okv := p.Resolve(p.Ret.Results[1]), p.Resolve(p.Ret.Results[2])
-			accept := a.C.Term(okv) == "true" && a.C.Term(ign) == "false"
+			accept := a.C.Term(okv) != "false" && a.C.Term(ign) != "true"
 			ignore := a.C.Term(ign) == "true"
 			switch {
 			case !called:
